@@ -530,3 +530,193 @@ Proof.
       subst b. apply Ha. now apply in_map. }
   apply G; [eapply wf_ids; eauto|auto].
 Qed.
+
+(* ---------- removing an organism from its species ---------- *)
+Definition all_sp (p : population) : list species := p_species p ++ p_detached p.
+Definition drop_key (k : Z) (s : species) : species :=
+  sp_with_orgs s (filter (fun x => negb (Z.eqb x k)) (sp_orgs s)).
+Arguments drop_key k s /.
+
+Lemma remove_org_ok l sid k l' : remove_org l sid k = Ok l' ->
+  exists s, sp_find l sid = Some s /\ l' = sp_replace l (drop_key k s).
+Proof.
+  unfold remove_org. destruct (sp_find l sid) as [s|]; [|discriminate].
+  destruct (_ && _); [|discriminate]. intros H; injection H as <-. eauto.
+Qed.
+
+Lemma remove_org_total l sid k s :
+  sp_find l sid = Some s -> NoDup (sp_orgs s) -> In k (sp_orgs s) -> exists l', remove_org l sid k = Ok l'.
+Proof.
+  intros F Hn Hi. unfold remove_org. rewrite F. destruct (filter_neq_length _ _ Hn Hi) as [E Hz].
+  rewrite E, Nat.eqb_refl. cbn. destruct (Nat.eqb_spec (length (sp_orgs s)) 0); [contradiction|]. cbn. eauto.
+Qed.
+
+Lemma sp_replace_found_meta l id s s' :
+  sp_find l id = Some s -> sp_id s' = id -> meta s' = meta s -> map meta (sp_replace l s') = map meta l.
+Proof.
+  intros F <- M. induction l as [|y l IH]; cbn in *; [reflexivity|].
+  destruct (Z.eqb_spec (sp_id y) (sp_id s')).
+  - injection F as ->. cbn. now rewrite M.
+  - cbn. f_equal. auto.
+Qed.
+
+Lemma sp_replace_drop_members l id s k :
+  sp_find l id = Some s ->
+  forall k', k' <> k -> (exists y, In y l /\ In k' (sp_orgs y)) ->
+  exists y, In y (sp_replace l (drop_key k s)) /\ In k' (sp_orgs y).
+Proof.
+  intros F k' N. induction l as [|x l IH]; cbn in *; [discriminate|].
+  change (sp_id (drop_key k s)) with (sp_id s).
+  pose proof (sp_find_some (x :: l) id s) as Hs. cbn in Hs. specialize (Hs F). destruct Hs as [_ Es].
+  rewrite Es. destruct (Z.eqb_spec (sp_id x) id) as [E|E].
+  - injection F as ->. intros (y & [<-|Hy] & Hk).
+    + exists (drop_key k s). split; [now left|]. cbn. apply filter_neq_in. auto.
+    + exists y. split; [now right|assumption].
+  - intros (y & [<-|Hy] & Hk).
+    + exists x. split; [now left|assumption].
+    + destruct (IH F) as (y' & Hy' & Hk'); [eauto|]. exists y'. split; [now right|assumption].
+Qed.
+
+Lemma remove_org_app sps det sid k l' :
+  remove_org (sps ++ det) sid k = Ok l' ->
+  match sp_find sps sid with
+  | Some _ => exists l1, remove_org sps sid k = Ok l1 /\ l' = l1 ++ det
+  | None => exists l1, remove_org det sid k = Ok l1 /\ l' = sps ++ l1
+  end.
+Proof.
+  unfold remove_org. rewrite sp_find_app. destruct (sp_find sps sid) as [s|] eqn:F.
+  - destruct (_ && _); [|discriminate]. intros H; injection H as <-. eexists. split; [reflexivity|].
+    rewrite sp_replace_app. cbn [sp_id sp_with_orgs]. destruct (sp_find_some _ _ _ F) as [_ ->]. now rewrite F.
+  - destruct (sp_find det sid) as [s|] eqn:F2; [|discriminate].
+    destruct (_ && _); [|discriminate]. intros H; injection H as <-. eexists. split; [reflexivity|].
+    rewrite sp_replace_app. cbn [sp_id sp_with_orgs]. destruct (sp_find_some _ _ _ F2) as [_ ->]. now rewrite F.
+Qed.
+
+Lemma remove_from_species_ok p x p1 :
+  remove_from_species p x = Ok p1 ->
+  remove_org (all_sp p) (o_species x) (o_key x) = Ok (all_sp p1) /\
+  map meta (p_species p1) = map meta (p_species p) /\
+  (forall k', k' <> o_key x -> (exists y, In y (p_species p) /\ In k' (sp_orgs y)) ->
+              exists y, In y (p_species p1) /\ In k' (sp_orgs y)) /\
+  p_heap p1 = p_heap p /\ p_orgs p1 = p_orgs p /\ p_last_species p1 = p_last_species p /\
+  p_next_key p1 = p_next_key p.
+Proof.
+  unfold remove_from_species, all_sp. destruct (sp_find (p_species p) (o_species x)) as [s0|] eqn:F.
+  - destruct (remove_org (p_species p) (o_species x) (o_key x)) as [l| | | | |] eqn:R; try discriminate.
+    cbn. intros H. injection H as <-. cbn.
+    pose proof R as R'. apply remove_org_ok in R'. destruct R' as (s & Fs & ->). rewrite F in Fs. injection Fs as <-.
+    split; [|split; [|split]]; auto.
+    + unfold remove_org in R |- *. rewrite F in R. rewrite sp_find_app, F. destruct (_ && _); [|discriminate R].
+      f_equal. rewrite sp_replace_app. cbn [sp_id drop_key sp_with_orgs]. destruct (sp_find_some _ _ _ F) as [_ ->]. now rewrite F.
+    + eapply sp_replace_found_meta; eauto. now destruct (sp_find_some _ _ _ F).
+    + intros k' N. eapply sp_replace_drop_members; eauto.
+  - destruct (remove_org (p_detached p) (o_species x) (o_key x)) as [l| | | | |] eqn:R; try discriminate.
+    cbn. intros H. injection H as <-. cbn.
+    pose proof R as R'. apply remove_org_ok in R'. destruct R' as (s & Fs & ->).
+    split; [|split; [|split]]; auto.
+    unfold remove_org in R |- *. rewrite Fs in R. rewrite sp_find_app, F, Fs. destruct (_ && _); [|discriminate R].
+    f_equal. rewrite sp_replace_app. cbn [sp_id drop_key sp_with_orgs]. destruct (sp_find_some _ _ _ Fs) as [_ ->]. now rewrite F.
+Qed.
+
+Lemma remove_from_species_total p x l' :
+  remove_org (all_sp p) (o_species x) (o_key x) = Ok l' -> exists p1, remove_from_species p x = Ok p1.
+Proof.
+  intros H. apply remove_org_app in H. unfold remove_from_species.
+  destruct (sp_find (p_species p) (o_species x)); destruct H as (l1 & -> & _); cbn; eauto.
+Qed.
+
+Lemma Wf_remove l h P k sid l' :
+  Wf l h P -> sp_of h k = Some sid -> P k -> remove_org l sid k = Ok l' ->
+  Wf l' h (fun x => P x /\ x <> k).
+Proof.
+  intros W E Hk R. apply remove_org_ok in R. destruct R as (s & F & ->).
+  destruct (Wf_find _ _ _ _ _ W Hk E) as (s0 & F0 & Hs & Ks). rewrite F in F0. injection F0 as <-.
+  destruct (sp_find_some _ _ _ F) as [_ Eid].
+  pose proof (wf_ids _ _ _ W) as Hn.
+  assert (Eid' : sp_id (drop_key k s) = sp_id s) by reflexivity.
+  constructor.
+  - now rewrite sp_replace_ids.
+  - intros y Hy. apply sp_replace_in in Hy; [|assumption]. destruct Hy as [->|[Hy _]].
+    + cbn. apply NoDup_filter. eapply wf_nodup; eauto.
+    + eapply wf_nodup; eauto.
+  - intros y k' Hy Hk'. apply sp_replace_in in Hy; [|assumption]. destruct Hy as [->|[Hy _]].
+    + cbn in Hk'. apply filter_neq_in in Hk'. destruct Hk' as [Hk' _]. rewrite Eid'. eapply wf_link; eauto.
+    + eapply wf_link; eauto.
+  - intros y k' Hy Hk'. apply sp_replace_in in Hy; [|assumption]. destruct Hy as [->|[Hy Ny]].
+    + cbn in Hk'. apply filter_neq_in in Hk'. destruct Hk' as [Hk' Nk]. split; [|assumption]. eapply wf_incl; eauto.
+    + split; [eapply wf_incl; eauto|]. intros ->. apply Ny. rewrite Eid'. f_equal.
+      eapply Wf_same_species; eauto.
+  - intros k' [Hk' Nk]. destruct (wf_cover _ _ _ W k' Hk') as (y & Hy & Ky).
+    destruct (Z.eq_dec (sp_id y) (sp_id s)) as [Ey|Ny].
+    + assert (y = s) by (eapply nodup_ids_eq; eauto). subst y. exists (drop_key k s). split.
+      * apply sp_replace_in_new. eauto.
+      * cbn. apply filter_neq_in. auto.
+    + exists y. split; [|assumption]. apply sp_replace_in_old; auto.
+Qed.
+
+Lemma Wf_remove_total l h P k sid :
+  Wf l h P -> sp_of h k = Some sid -> P k -> exists l', remove_org l sid k = Ok l'.
+Proof.
+  intros W E Hk. destruct (Wf_find _ _ _ _ _ W Hk E) as (s & F & Hs & Ks).
+  eapply remove_org_total; eauto. eapply wf_nodup; eauto.
+Qed.
+
+(* ---------- adding an organism to a species / founding a species ---------- *)
+Definition add_key (k : Z) (s : species) : species := sp_with_orgs s (sp_orgs s ++ [k]).
+Arguments add_key k s /.
+
+Lemma Wf_add_member l h h' P k id :
+  Wf l h P -> ~ P k -> (exists s, In s l /\ sp_id s = id) ->
+  (forall k', k' <> k -> sp_of h' k' = sp_of h k') -> sp_of h' k = Some id ->
+  Wf (sp_set l id (add_key k)) h' (fun x => P x \/ x = k).
+Proof.
+  intros W Nk (s0 & Hs0 & E0) Fr Ek.
+  assert (Nin : forall s, In s l -> ~ In k (sp_orgs s)).
+  { intros s Hs Hi. apply Nk. eapply wf_incl; eauto. }
+  constructor.
+  - rewrite sp_set_ids; [eapply wf_ids; eauto|reflexivity].
+  - intros y Hy. apply sp_set_in in Hy. destruct Hy as (s & Hs & ->).
+    destruct (Z.eqb (sp_id s) id); [|eapply wf_nodup; eauto]. cbn.
+    apply nodup_app; [eapply wf_nodup; eauto|repeat constructor; intros []|].
+    intros x Hx [<-|[]]. eapply Nin; eauto.
+  - intros y k' Hy Hk'. apply sp_set_in in Hy. destruct Hy as (s & Hs & ->).
+    destruct (Z.eqb_spec (sp_id s) id) as [Es|Ns].
+    + cbn in Hk'. apply in_app_or in Hk'. destruct Hk' as [Hk'|[<-|[]]].
+      * rewrite Fr; [exact (wf_link _ _ _ W s k' Hs Hk')|]. intros ->. eapply Nin; eauto.
+      * cbn. now rewrite Es.
+    + rewrite Fr; [exact (wf_link _ _ _ W s k' Hs Hk')|]. intros ->. eapply Nin; eauto.
+  - intros y k' Hy Hk'. apply sp_set_in in Hy. destruct Hy as (s & Hs & ->).
+    destruct (Z.eqb (sp_id s) id).
+    + cbn in Hk'. apply in_app_or in Hk'. destruct Hk' as [Hk'|[<-|[]]]; [left; eapply wf_incl; eauto|now right].
+    + left. eapply wf_incl; eauto.
+  - intros k' [Hk'| ->].
+    + destruct (wf_cover _ _ _ W k' Hk') as (s & Hs & Ks).
+      exists (if Z.eqb (sp_id s) id then add_key k s else s). split; [apply sp_set_in; eauto|].
+      destruct (Z.eqb (sp_id s) id); [cbn; apply in_or_app; now left|assumption].
+    + exists (add_key k s0). split.
+      * apply sp_set_in. exists s0. split; [assumption|]. rewrite E0, Z.eqb_refl. reflexivity.
+      * cbn. apply in_or_app. right. now left.
+Qed.
+
+Lemma Wf_add_species l h h' P k id :
+  Wf l h P -> ~ P k -> (forall s, In s l -> sp_id s <> id) ->
+  (forall k', k' <> k -> sp_of h' k' = sp_of h k') -> sp_of h' k = Some id ->
+  Wf (new_species id k :: l) h' (fun x => P x \/ x = k).
+Proof.
+  intros W Nk Nid Fr Ek.
+  assert (Nin : forall s, In s l -> ~ In k (sp_orgs s)).
+  { intros s Hs Hi. apply Nk. eapply wf_incl; eauto. }
+  constructor.
+  - cbn. constructor; [|eapply wf_ids; eauto]. intros Hi. apply in_map_iff in Hi.
+    destruct Hi as (s & E & Hs). eapply Nid; eauto.
+  - intros y [<-|Hy]; [cbn; repeat constructor; intros []|eapply wf_nodup; eauto].
+  - intros y k' [<-|Hy] Hk'.
+    + cbn in Hk'. destruct Hk' as [<-|[]]. exact Ek.
+    + rewrite Fr; [exact (wf_link _ _ _ W y k' Hy Hk')|]. intros ->. eapply Nin; eauto.
+  - intros y k' [<-|Hy] Hk'.
+    + cbn in Hk'. destruct Hk' as [<-|[]]. now right.
+    + left. eapply wf_incl; eauto.
+  - intros k' [Hk'| ->].
+    + destruct (wf_cover _ _ _ W k' Hk') as (s & Hs & Ks). exists s. split; [now right|assumption].
+    + exists (new_species id k). split; [now left|]. cbn. now left.
+Qed.
